@@ -1,4 +1,42 @@
 From Coq Require Import ZArith List.
-From PV Require Import C07.C07_Proofs.
-Theorem c07_placeholder : True. Proof. exact placeholder. Qed.
-Print Assumptions c07_placeholder.
+From PV Require Import Base.U64 C07.C07_Model C07.C07_Arith C07.C07_Lists C07.C07_SPSC_Model C07.C07_Proofs.
+Import ListNotations.
+Local Open Scope Z_scope.
+
+(* ===== SPSC ring queue (push / pop / push_batch / pop_batch): every capacity 2^k (1<=k<=63), every
+   start index (arithmetic mod 2^64: index wrap-around included), every script of the producer thread
+   pp and the consumer thread cc, EVERY schedule (sreach = any sequence of participant choices). ===== *)
+
+(* exactly-once + FIFO + nothing lost, as sequences of (ghost index, value):
+   popped (consumer's program order) ++ still queued (index order) = pushed (producer's program order) *)
+Theorem spsc_q_exactly_once_fifo :
+  forall c, cfg_ok c -> forall s pp cc, pp <> cc -> forall scripts, spsc_wf pp cc scripts ->
+  forall st, sreach c (spsc_init s scripts) st ->
+  pop_items (chron st cc) ++ map (fun i => (i, s_gval st i)) (zrange (s_gh st) (s_gt st)) = push_items (chron st pp).
+Proof. exact spsc_exactly_once_fifo. Qed.
+Print Assumptions spsc_q_exactly_once_fifo.
+
+Theorem spsc_q_no_invention :
+  forall c, cfg_ok c -> forall s pp cc, pp <> cc -> forall scripts, spsc_wf pp cc scripts ->
+  forall st, sreach c (spsc_init s scripts) st ->
+  forall iv, In iv (pop_items (chron st cc)) -> In iv (push_items (chron st pp)).
+Proof. exact spsc_no_invention. Qed.
+Print Assumptions spsc_q_no_invention.
+
+(* never more than capacity elements, head/tail are the ghost counters mod 2^64, and every queued element
+   sits intact in its slot at every moment (no slot overwritten before it is read) *)
+Theorem spsc_q_bounded :
+  forall c, cfg_ok c -> forall s pp cc, pp <> cc -> forall scripts, spsc_wf pp cc scripts ->
+  forall st, sreach c (spsc_init s scripts) st ->
+  0 <= s_gt st - s_gh st <= c_cap c /\
+  s_head st = wrap (s_gh st) /\ s_tail st = wrap (s_gt st) /\
+  wrap (s_tail st - s_head st) = s_gt st - s_gh st /\
+  forall i, s_gh st <= i < s_gt st -> s_slot st (idx c (wrap i)) = s_gval st i.
+Proof. exact spsc_bounded. Qed.
+Print Assumptions spsc_q_bounded.
+
+(* every E3 replay step is a composition of steps of the proved transition system *)
+Theorem spsc_e3_runs_are_runs :
+  forall c st0 st p f, sreach c st0 st -> sreach c st0 (fst (spsc_e3step c st p f)).
+Proof. exact e3step_reach. Qed.
+Print Assumptions spsc_e3_runs_are_runs.
